@@ -98,8 +98,26 @@ int main(int argc, char ** argv)
       cfg.decay_category = "background";
       cfg.nuclide = BKG[r.below(10)];
     }
+    // momentum-direction lock through the action's own configuration (labels, ranks, angles in degrees)
+    static const struct { const char * label; bxdecay0::particle_code code; } MDL_LABELS[] = {
+        {"e-", bxdecay0::ELECTRON}, {"electron", bxdecay0::ELECTRON}, {"e+", bxdecay0::POSITRON}, {"positron", bxdecay0::POSITRON}, {"g", bxdecay0::GAMMA},
+        {"gamma", bxdecay0::GAMMA},  {"a", bxdecay0::ALPHA},          {"alpha", bxdecay0::ALPHA}, {"*", bxdecay0::INVALID_PARTICLE},  {"all", bxdecay0::INVALID_PARTICLE}};
+    bxdecay0::particle_code mdl_code = bxdecay0::INVALID_PARTICLE;
+    if (r.below(5) < 2) {
+      int li = (int)r.below(10);
+      cfg.use_mdl = true;
+      cfg.mdl_target_name = MDL_LABELS[li].label;
+      mdl_code = MDL_LABELS[li].code;
+      cfg.mdl_target_rank = (int)r.below(3) - 1;
+      cfg.mdl_cone_longitude = 360.0 * r.uniform();
+      cfg.mdl_cone_colatitude = 180.0 * r.uniform();
+      cfg.mdl_cone_aperture = 5.0 + 55.0 * r.uniform();
+      cfg.mdl_cone_aperture2 = r.below(3) == 0 ? 10.0 + 30.0 * r.uniform() : -1.0;
+      cfg.mdl_error_on_missing_particle = false;
+    }
     int vmode = (int)r.below(3); // 0 none, 1 unique point, 2 counting random
     std::string lab = cfg.decay_category + "/" + cfg.nuclide + fmt("/vertex%d", vmode);
+    if (cfg.use_mdl) lab += std::string("/mdl:") + cfg.mdl_target_name.c_str() + (cfg.mdl_cone_aperture2 >= 0 ? "/rect" : "");
     if (cfg.dbd_min_energy_MeV > 0 || cfg.dbd_max_energy_MeV > 0) lab += fmt("/window%s%s", cfg.dbd_min_energy_MeV > 0 ? "-min" : "", cfg.dbd_max_energy_MeV > 0 ? "-max" : "");
     classes.insert(lab);
     // expected events: the library API with the same engine and seed
@@ -114,6 +132,16 @@ int main(int argc, char ** argv)
       if (cfg.dbd_min_energy_MeV > 0 || cfg.dbd_max_energy_MeV > 0)
         ref.set_decay_dbd_esum_range(cfg.dbd_min_energy_MeV > 0 ? cfg.dbd_min_energy_MeV : std::numeric_limits<double>::quiet_NaN(),
                                      cfg.dbd_max_energy_MeV > 0 ? cfg.dbd_max_energy_MeV : std::numeric_limits<double>::quiet_NaN());
+    }
+    if (cfg.use_mdl) {
+      auto op = std::make_shared<bxdecay0::momentum_direction_lock_event_op>();
+      const double d2r = M_PI / 180.0;
+      int rank = cfg.mdl_target_rank < 0 ? -1 : cfg.mdl_target_rank;
+      if (cfg.mdl_cone_aperture2 >= 0.0)
+        op->set_with_aperture_rectangular_cut(mdl_code, rank, cfg.mdl_cone_longitude * d2r, cfg.mdl_cone_colatitude * d2r, cfg.mdl_cone_aperture * d2r, cfg.mdl_cone_aperture2 * d2r,
+                                              cfg.mdl_error_on_missing_particle);
+      else op->set(mdl_code, rank, cfg.mdl_cone_longitude * d2r, cfg.mdl_cone_colatitude * d2r, cfg.mdl_cone_aperture * d2r, cfg.mdl_error_on_missing_particle);
+      ref.add_operation(op);
     }
     ref.initialize(prng);
     bool reuse = (ci % 3) != 0 && live;
